@@ -17,6 +17,7 @@ import (
 	"crypto/tls"
 	"crypto/x509"
 	"crypto/x509/pkix"
+	"encoding/base64"
 	"encoding/json"
 	"encoding/pem"
 	"errors"
@@ -202,10 +203,7 @@ func vE2EPaths(sh *vShape) []*vPath {
 			vRawDump(reflect.ValueOf(conf.ToStringMap()), &b, 0)
 			return b.String()
 		}, cause: func(sh *vShape) string {
-			if sh.hasArray() {
-				return "confmap-array-left-typed"
-			}
-			return "unexplained"
+			return "unexplained" // (arrays were left typed before repair b32d82269: the old failing inputs stay in the generator)
 		}},
 		{label: "confmap.Marshal: conf.Get of every leaf, fmt %s of string(kind)", render: func(v any) string {
 			conf := confmap.New()
@@ -370,6 +368,8 @@ func vHostSafe(s string) bool {
 	return s != ""
 }
 
+func textprotoCanon(k string) string { return http.CanonicalHeaderKey(k) }
+
 func vUseHTTP(t *testing.T, out *vOut, secrets []string) {
 	ctx := context.Background()
 	var mu sync.Mutex
@@ -392,6 +392,8 @@ func vUseHTTP(t *testing.T, out *vOut, secrets []string) {
 			}
 		}
 	}
+	safe = append(safe, "tok-"+strings.Repeat("Zx9-", 40)) // a long token (164 bytes)
+	hostSafe = append(hostSafe, "long-"+strings.Repeat("h0st.", 14)+"example")
 	mkeys := []string{"Authorization", "authorization-2", "X-Api-Key", "X-Signature-Bin", "x-tenant-bin", "X-UPPER-BIN", "x_under_score", "X-Mixed-cASE-bin", "x-bin", "bin"}
 	for r := 0; r < len(safe); r++ {
 		var cfg [][2]string
@@ -429,6 +431,40 @@ func vUseHTTP(t *testing.T, out *vOut, secrets []string) {
 			resp.Body.Close()
 		}
 		mu.Lock()
+		first := gotHdr.Clone()
+		mu.Unlock()
+		// a second request through the same client must carry the same secrets (no state kept between requests)
+		req2, _ := http.NewRequestWithContext(ctx, http.MethodPost, srv.URL, strings.NewReader("x"))
+		for _, p := range pre {
+			req2.Header.Set(p[0], p[1])
+		}
+		if resp, err := cl.Do(req2); err != nil {
+			t.Fatalf("http client (2nd request): %v", err)
+		} else {
+			resp.Body.Close()
+		}
+		mu.Lock()
+		for _, k := range mkeys {
+			if a, b := first.Values(k), gotHdr.Values(k); fmt.Sprint(a) != fmt.Sprint(b) {
+				out.Oracle("use-does-not-yield-secret", "CHttpClient "+vEncPairs(cfg)+" [] (A \"\") (A \"\") []", fmt.Sprintf("consumer=headerRoundTripper.RoundTrip key=%q: the first request carried %q, the second one through the same client %q; cause=unexplained", k, a, b))
+			}
+		}
+		// no configured value may travel under a key it was not configured for
+		for hk, hv := range gotHdr {
+			for _, kv := range cfg {
+				if kv[1] != "" && vDistinctive(kv[1]) && textprotoCanon(hk) != textprotoCanon(kv[0]) && strings.Contains(strings.Join(hv, "\n"), kv[1]) {
+					own := false
+					for _, kv2 := range cfg {
+						if textprotoCanon(kv2[0]) == textprotoCanon(hk) && kv2[1] == kv[1] {
+							own = true
+						}
+					}
+					if !own {
+						out.Oracle("secret-revealed", "CHttpClient "+vEncPairs(cfg)+" [] (A \"\") (A \"\") []", fmt.Sprintf("path=http request headers: the value configured for %q also travels under %q: %q; cause=unexplained", kv[0], hk, hv))
+					}
+				}
+			}
+		}
 		var obs []vKVs
 		for _, k := range append(append([]string{}, mkeys...), "X-Untouched", "x-absent") {
 			obs = append(obs, vKVs{k, gotHdr.Values(k)})
@@ -579,7 +615,7 @@ func vUseGRPC(t *testing.T, out *vOut, secrets []string) {
 	}
 	var hks []hk
 	hdr := map[string]configopaque.String{}
-	for i, sec := range secrets {
+	for i, sec := range append(append([]string{}, secrets...), "tok-"+strings.Repeat("Zx9-", 40)) {
 		if len(sec) > 200 {
 			continue
 		}
@@ -662,6 +698,21 @@ func vUseGRPC(t *testing.T, out *vOut, secrets []string) {
 		out.Case(true, term)
 		out.Stat("use_map_grpc", 1)
 		vHeaderOracle(out, "addHeadersIfAbsent "+method, term, cfg, func(k string) bool { return k == "X-Pre-Set" }, func(k string) []string { return md.Get(k) })
+		for mk, mv := range md { // no configured value under a key it was not configured for (user-agent, authority, ...)
+			for _, kv := range cfg {
+				if vDistinctive(kv[1]) && strings.ToLower(kv[0]) != mk && strings.Contains(strings.Join(mv, "\n"), kv[1]) {
+					own := false
+					for _, kv2 := range cfg {
+						if strings.ToLower(kv2[0]) == mk && kv2[1] == kv[1] {
+							own = true
+						}
+					}
+					if !own {
+						out.Oracle("secret-revealed", term, fmt.Sprintf("path=grpc metadata %s: the value configured for %q also travels under %q; cause=unexplained", method, kv[0], mk))
+					}
+				}
+			}
+		}
 		if g := md.Get("x-pre-set"); len(g) != 1 || g[0] != "set-by-the-caller" {
 			out.Oracle("use-does-not-yield-secret", term, fmt.Sprintf("consumer=addHeadersIfAbsent %s key=\"x-pre-set\": the caller's value was not kept: %q; cause=unexplained", method, g))
 		}
@@ -1030,6 +1081,131 @@ func vTLSDecision(t *testing.T, out *vOut) {
 	}
 }
 
+// vValidate: Validate() of the configuration structs that hold opaque values, with EVERY adversarial secret
+// (unicode, control bytes, a token with a trailing newline, the 4 KiB one) in every opaque field; the error —
+// printed and logged at collector start-up — and all its renderings must not show any of them.
+func vValidate(t *testing.T, out *vOut, secrets []string) {
+	secs := append(append([]string{}, secrets...), "hunter2-tok3n-read-from-a-file\n", "hunter2\ttab\x7fdel-s3cr3t", "bearer ünï-s3cr3t-Ünicode")
+	render := func(err error) []string {
+		if err == nil {
+			return nil
+		}
+		return []string{err.Error(), fmt.Sprintf("%v|%+v|%q|%#v", err, err, err, err.Error()), fmt.Errorf("invalid configuration: %w", err).Error(),
+			errors.Join(errors.New("first"), err).Error()}
+	}
+	for i, sec := range secs {
+		// -- grpc client: headers of both kinds, valid and unknown balancer
+		for _, bal := range []string{"", "round_robin", "no_such_balancer"} {
+			cfg := [][2]string{{"authorization", sec}, {"x-api-key", secs[(i+1)%len(secs)]}, {"x-signature-bin", sec}}
+			cc := configgrpc.NewDefaultClientConfig()
+			cc.BalancerName = bal
+			cc.Headers = map[string]configopaque.String{}
+			for _, kv := range cfg {
+				cc.Headers[kv[0]] = configopaque.String(kv[1])
+			}
+			err := cc.Validate()
+			etxt := ""
+			if err != nil {
+				etxt = err.Error()
+			}
+			term := "CValidate 0 " + vEnc(bal) + " " + vBool(bal != "no_such_balancer") + " " + vEncPairs(cfg) + " " + vEnc(etxt)
+			if len(sec) < 200 {
+				out.Case(true, term)
+			}
+			out.Stat("validate_grpc_client", 1)
+			vFailOracle(out, "error of configgrpc.ClientConfig.Validate", term, cfg, render(err)...)
+		}
+		// -- http client
+		{
+			cfg := [][2]string{{"Authorization", sec}, {"X-Api-Key", secs[(i+1)%len(secs)]}}
+			hc := confighttp.NewDefaultClientConfig()
+			hc.Headers = map[string]configopaque.String{}
+			for _, kv := range cfg {
+				hc.Headers[kv[0]] = configopaque.String(kv[1])
+			}
+			err := hc.Validate()
+			etxt := ""
+			if err != nil {
+				etxt = err.Error()
+			}
+			term := "CValidate 1 (A \"\") false " + vEncPairs(cfg) + " " + vEnc(etxt)
+			if len(sec) < 200 {
+				out.Case(true, term)
+			}
+			out.Stat("validate_http_client", 1)
+			vFailOracle(out, "error of confighttp.ClientConfig.Validate", term, cfg, render(err)...)
+		}
+		// -- tls: the PEM fields hold the secret text (a mis-pasted secret), with and without a CA file
+		for _, caFile := range []string{"", "/nonexistent/ca.pem"} {
+			cfg := [][2]string{{"ca_pem", sec}, {"cert_pem", secs[(i+1)%len(secs)]}, {"key_pem", sec}}
+			tc := configtls.Config{CAFile: caFile, CAPem: configopaque.String(cfg[0][1]), CertPem: configopaque.String(cfg[1][1]), KeyPem: configopaque.String(cfg[2][1])}
+			err := tc.Validate()
+			etxt := ""
+			if err != nil {
+				etxt = err.Error()
+			}
+			term := "CValidate 2 (A \"\") " + vBool(caFile != "") + " " + vEncPairs(cfg) + " " + vEnc(etxt)
+			if len(sec) < 200 {
+				out.Case(true, term)
+			}
+			out.Stat("validate_tls", 1)
+			vFailOracle(out, "error of configtls.Config.Validate", term, cfg, render(err)...)
+		}
+	}
+}
+
+// vTLSCA: the CA pool from ca_file / ca_pem: valid certificate, a PEM block that is no certificate, plain garbage
+func vTLSCA(t *testing.T, out *vOut) {
+	dir := t.TempDir()
+	key, err := ecdsa.GenerateKey(elliptic.P256(), rand.Reader)
+	if err != nil {
+		t.Fatal(err)
+	}
+	tmpl := &x509.Certificate{SerialNumber: big.NewInt(7), Subject: pkix.Name{CommonName: "verif-ca"}, NotBefore: time.Now().Add(-time.Hour), NotAfter: time.Now().Add(time.Hour), IsCA: true, BasicConstraintsValid: true, KeyUsage: x509.KeyUsageCertSign}
+	der, err := x509.CreateCertificate(rand.Reader, tmpl, tmpl, &key.PublicKey, key)
+	if err != nil {
+		t.Fatal(err)
+	}
+	leaf, _ := x509.ParseCertificate(der)
+	valid := string(pem.EncodeToMemory(&pem.Block{Type: "CERTIFICATE", Bytes: der}))
+	notCert := string(pem.EncodeToMemory(&pem.Block{Type: "CERTIFICATE", Bytes: []byte("hunter2-s3cr3t-A-is-not-a-certificate-but-a-secret-pasted-into-ca_pem")}))
+	garbage := "hunter2-s3cr3t-B pasted into ca_pem by mistake"
+	pems := []string{"", valid, notCert, garbage}
+	files := []string{"", dir + "/ca_valid.pem", dir + "/ca_notcert.pem"}
+	_ = os.WriteFile(files[1], []byte(valid), 0o600)
+	_ = os.WriteFile(files[2], []byte(notCert), 0o600)
+	for fi, file := range files {
+		for pi, p := range pems {
+			cfg := configtls.ClientConfig{Config: configtls.Config{CAFile: file, CAPem: configopaque.String(p)}}
+			tc, err := cfg.LoadTLSConfig(context.Background())
+			etxt := ""
+			if err != nil {
+				etxt = strings.TrimPrefix(err.Error(), "failed to load TLS config: ")
+			}
+			parseOK := (fi == 1 && pi == 0) || (fi == 0 && pi == 1) || (fi == 0 && pi == 0)
+			term := fmt.Sprintf("CTlsCA %d %d %s %s", fi, pi, vBool(parseOK), vEnc(etxt))
+			out.Case(true, term)
+			out.Stat("tls_ca_cases", 1)
+			for _, bad := range []string{"hunter2-s3cr3t-A", "hunter2-s3cr3t-B", base64.StdEncoding.EncodeToString([]byte("hunter2-s3cr3t-A-is-not"))[:24]} {
+				if strings.Contains(etxt, bad) {
+					out.Oracle("secret-revealed", term, fmt.Sprintf("path=configtls CA load error: the error text contains the ca_pem contents: %q; cause=unexplained", etxt))
+					break
+				}
+			}
+			if fi == 0 && pi == 1 { // use: the configured CA is the pool
+				ok := err == nil && tc != nil && tc.RootCAs != nil
+				if ok {
+					_, verr := leaf.Verify(x509.VerifyOptions{Roots: tc.RootCAs})
+					ok = verr == nil
+				}
+				if !ok {
+					out.Oracle("use-does-not-yield-secret", term, "consumer=configtls.loadCACertPool: the certificate configured in ca_pem is not in the loaded pool; cause=unexplained")
+				}
+			}
+		}
+	}
+}
+
 func TestVerifC14E2E(t *testing.T) {
 	out := vOpen()
 	defer out.Close()
@@ -1049,6 +1225,8 @@ func TestVerifC14E2E(t *testing.T) {
 	vUseGRPC(t, out, r.secrets)
 	vUseTLS(t, out)
 	vTLSDecision(t, out)
+	vTLSCA(t, out)
+	vValidate(t, out, r.secrets)
 	vUseFailures(t, out, r.secrets)
 
 	// ---- decoding through confmap
@@ -1095,7 +1273,7 @@ func TestVerifC14E2E(t *testing.T) {
 			if err := in.Unmarshal(&d); err != nil {
 				t.Fatalf("squash unmarshaler: %v", err)
 			}
-			vUnmCase(out, "UConfSquashUnmarshaler", sec, string(d.In.Tok), "confmap-squash-unmarshaler-remarshal")
+			vUnmCase(out, "UConfSquashUnmarshaler", sec, string(d.In.Tok), "unexplained") // (stored "[REDACTED]" before repair 02a3505c0)
 		}
 	}
 
